@@ -114,7 +114,8 @@ Qed.
 Print Assumptions C04_code_layout_is_model_layout.
 
 (* the scaling arrays of the source (all three modes): element * 2^(halvings of the model) = N^D, i.e. element = N^D / 2^halvings;
-   the mode slices of the source, read with Python's slice semantics on an axis of any length, are the model's index sets *)
+   the mode slices of the source, read with Python's slice semantics on an axis of any length, are the model's index sets;
+   make_grid of the source (exponax/_utils.py) puts x_j = j L / N on every axis (N + 1 points when full), shifted by L / 2 when zero_centered *)
 Theorem C04_code_scaling_and_slices_are_model : forall (F : FieldT) (D : nat) (N : Z) (idx : list Z) (mode : Z),
   (mode = 10 \/ mode = 11 \/ mode = 12)%Z ->
   omul (if (mode =? 10)%Z then gen_build_scaling_array_norm_compensation F false D N idx
@@ -124,14 +125,20 @@ Theorem C04_code_scaling_and_slices_are_model : forall (F : FieldT) (D : nat) (N
   /\ (forall len j : Z, (2 <= N)%Z -> (0 <= len)%Z ->
         in_py_slice len (gen_modes_slice_left N) j = in_left N len j
         /\ in_py_slice len (gen_modes_slice_right N) j = in_right N len j
-        /\ in_py_slice len (gen_modes_slice_last N) j = in_last N len j).
+        /\ in_py_slice len (gen_modes_slice_last N) j = in_last N len j)
+  /\ (forall (pi L : F) (full zero_centered xy : bool) (c : nat),
+        gen_make_grid F full zero_centered xy D L N c idx =
+        (let j := nth (mesh_axis xy D c) idx 0%Z in
+         let x := odiv (omul (fz (fst (grid_num full N j))) L) (fz (snd (grid_num full N j))) in
+         if zero_centered then osub x (odiv L (fz 2)) else x)).
 Proof.
-  intros F D N idx mode Hm. split.
+  intros F D N idx mode Hm. split; [|split].
   - apply scaling_modes_halvings; exact Hm.
   - intros len j HN Hl. splits.
     + apply modes_slice_left_tie; lia.
     + apply modes_slice_right_tie; lia.
     + apply modes_slice_last_tie; lia.
+  - intros pi L full zero_centered xy c. apply make_grid_tie.
 Qed.
 Print Assumptions C04_code_scaling_and_slices_are_model.
 
